@@ -328,6 +328,17 @@ impl<'a> Session<'a> {
         res
     }
 
+    /// One operation during which an armed source fault may fire (event OpF: the result may be
+    /// RES_ERR, `fired` says whether the fault fired during this very call).
+    pub fn op_f(&mut self, c: usize, op: &Op) -> i64 {
+        let before = crate::io::fired();
+        let (res, loads) = self.exec(c, op);
+        let fired = crate::io::fired() && !before;
+        let q = op.probe().map(|q| self.probe_id(q)).unwrap_or(0);
+        self.out.ev(json!({"ev": "OpF", "c": c, "op": op.name(), "q": q, "res": res, "fired": fired, "loads": loads}));
+        res
+    }
+
     /// Whole scan from a fresh/reset cursor, logged as one event.
     pub fn scan(&mut self, c: usize, fwd: bool) {
         let mut out: Vec<i64> = Vec::new();
@@ -748,6 +759,67 @@ pub fn scn_history(out: &mut TraceOut, r: &mut R, idx: u64, heavy: bool, ver: u8
             }
         }
     }
+}
+
+/// C03 over histories that contain a call which returned Err: "first, last and seeks are unaffected
+/// by anything done before them" -- a one-off source failure (read or seek, at the 1st..6th source
+/// call from where it is armed) hits some call of a random history; the source works again
+/// afterwards. What the hit call returns is C12's business; what relative moves and `current`
+/// answer afterwards is left open (as after None); every later absolute move that returns Ok must
+/// return the entry the content determines, and a reset cursor scans from the ends again.
+pub fn scn_history_faulty(out: &mut TraceOut, r: &mut R, idx: u64, heavy: bool, nops: usize) {
+    let (cfg, entries) = random_file_capped(r, idx, heavy, 20_000);
+    let probes = probes_for(&entries);
+    let (dict, data) = build_and_log(out, &cfg, &entries, &probes, 2);
+    let Some(data) = data else { return };
+    let mut s = new_session(out, entries, dict, data);
+    let Some(c0) = s.cursor(true) else { return };
+    let mut live = vec![c0];
+    let mut i = 0;
+    let mut armed = false;
+    while i < nops {
+        let c = *pick(r, &live);
+        if r.gen_ratio(1, 40) && live.len() < 3 {
+            let d = s.clone_cursor(c);
+            live.push(d);
+            continue;
+        }
+        if !armed && r.gen_ratio(1, 6) {
+            let comp = if r.gen_bool(0.7) { "src.read" } else { "src.seek" };
+            let kind = *pick(r, &["other", "eof", "denied", "timeout"]);
+            crate::io::arm(comp, r.gen_range(1..7), kind);
+            armed = true;
+        }
+        // relative moves (they cross blocks and reload index blocks) and absolute ones, mixed
+        let op = if r.gen_bool(0.45) { if r.gen_bool(0.5) { Op::Next } else { Op::Prev } } else { random_op(r, &probes) };
+        let res = s.op_f(c, &op);
+        i += 1;
+        if crate::io::fired() {
+            // the fault has been delivered: from here on the source is healthy
+            crate::io::disarm();
+            armed = false;
+            // the calls the statement singles out, right after the failure, on the same cursor
+            for _ in 0..r.gen_range(1..4) {
+                let a = match r.gen_range(0..5) {
+                    0 => Op::First,
+                    1 => Op::Last,
+                    2 => Op::Ge(pick(r, &probes).clone()),
+                    3 => Op::Le(pick(r, &probes).clone()),
+                    _ => Op::Eq(pick(r, &probes).clone()),
+                };
+                s.op_f(c, &a);
+                i += 1;
+            }
+        } else if matches!(op, Op::Next | Op::Prev) && res > 0 && r.gen_bool(0.6) {
+            for _ in 0..r.gen_range(1..12) {
+                if s.op_f(c, &op) <= 0 || crate::io::fired() {
+                    break;
+                }
+                i += 1;
+            }
+        }
+    }
+    crate::io::disarm();
 }
 
 /// Big arithmetic file for C16 / C02 / C03 at scale: 4-byte counters, keys base + i*step.
